@@ -216,7 +216,7 @@ func genLinCase(rt *rapid.T) LinCase {
 var c14 = &h.Campaign[LinCase]{
 	Prop: "C14", Sub: "linearizability",
 	Rule: "rapid: small concurrent programs, 2-4 clients x 2-5 calls (put/activate/delete-version/delete/get/get-version/info/list) on names {a (weighted), b} with a 3-value pool and generated yields, started from a barrier on a real database file, at db.DB or through concurrent mux.ServeHTTP; a final sequential full dump is appended; each recorded history is decided by porcupine's exhaustive linearizability search against the map model; runs under the race detector; non-trivial = the recorded intervals show >= 2 overlapping calls of different clients on the same name (or a list), at least one of them a mutation; distinct by program (schedules are sampled, so the same program may be explored under several interleavings)",
-	Quick: 1500, Thorough: 60000,
+	Quick: 1500, Thorough: 200000,
 	Gen:   genLinCase,
 	Run:   runC14,
 }
